@@ -54,6 +54,46 @@ def install_layout(seed):
     return stats
 
 
+def install_ambient(seed, amb):
+    """Further ambient inputs a decompiler must not depend on, each a seeded simulated variable of the process:
+    id() of androguard objects (the 'address'), the wall clock, time zone / locale variables and the working directory."""
+    import builtins
+    import time
+    rng = random.Random(seed ^ 0x5EED1D)
+    real_id = builtins.id
+
+    def sim_id(o):
+        if type(o).__module__.startswith("androguard"):
+            d = getattr(o, "__dict__", None)
+            if d is not None:
+                v = d.get("_verif_id")
+                if v is None:
+                    v = rng.getrandbits(47) << 4
+                    try:
+                        d["_verif_id"] = v
+                    except TypeError:
+                        return real_id(o)
+                return v
+        return real_id(o)
+    builtins.id = sim_id
+    t0 = [float(amb.get("time_base", 1.6e9))]
+
+    def sim_time():
+        t0[0] += 0.0137
+        return t0[0]
+    time.time = sim_time
+    for k in ("TZ", "LANG", "LC_ALL"):
+        if amb.get(k):
+            os.environ[k] = amb[k]
+    try:
+        time.tzset()
+    except Exception:
+        pass
+    if amb.get("cwd"):
+        os.makedirs(amb["cwd"], exist_ok=True)
+        os.chdir(amb["cwd"])
+
+
 def main():
     job = json.load(sys.stdin)
     root = job["repo"]
@@ -67,6 +107,7 @@ def main():
     stats = {"hash_calls": 0, "patched_classes": 0}
     if job.get("layout_seed") is not None:
         stats = install_layout(job["layout_seed"])
+        install_ambient(job["layout_seed"], job.get("ambient") or {})
     if job.get("gc") == "off":
         gc.disable()
     if job.get("junk"):
